@@ -116,7 +116,7 @@ STR_CONSTS = [
     ("fsControllers", "src/oomd/util/Fs.h", r'kControllersFile\s*=\s*"([^"]*)"'),
     ("ctxAverageSizeDecay", "src/oomd/OomdContext.h", r"average_size_decay\{([0-9.]+)\}"),
     # C11: the plugin argument a per-cgroup action copy gets by default (registerRunnableRulesetForCgroupPath)
-    ("rulesetCgroupArgName", "src/oomd/engine/Ruleset.cpp", r'"([^"\n]*)"[^;"\n]*cgroup\.relativePath\(\)'),
+    ("rulesetCgroupArgName", "src/oomd/engine/Ruleset.cpp", r'args\.try_emplace\(\s*"([^"\n]*)"'),
 ]
 
 # free-form expressions evaluated by python (e.g. `1024 * 1024`)
